@@ -105,6 +105,11 @@ def stepIrun (env : List Val) (ienv : List IVal) : IStmt → Option (List Val ×
         some (env ++ [r], ienv)
       else none
   | .reg _ | .memW _ _ => none     -- handled by `runX`
+  | .resetAssign x e => do
+      -- sequential semantics: the variable simply takes the new value (alias caches are not part of it - that is the point)
+      let v ← evalE env e
+      let _ ← env[x]?
+      some (env.set x v, ienv)
 
 /-- interpreter state: ordinary variables, integer variables, and the "update happens" flag of every `reg` / `memW` statement met so far
     (in program text order, skipped blocks included) -/
@@ -295,6 +300,16 @@ def stepI (X : XState) : IStmt → Option XState
       let (ns, r) := mkNode ns (.op2 o' a b)
       let B := X.core
       some { X with core := { B with nodes := ns, sigs := B.sigs ++ [{ ty := .bit, driver := r, initScope := curScopeId B }] } }
+  | .resetAssign x e => do
+      -- `x.resetNode()` (BitVector.cpp:238-254): node, width, policy and every alias cache are dropped, `m_initialScopeId` becomes the
+      -- current scope; `x = e` then creates a fresh node driven by `e` without a multiplexer. Re-creating a variable that was declared
+      -- outside the current conditional scope is not a sequential assignment (the C++ object is rebound whatever the condition): rejected,
+      -- as are a width change and defaulted signals. The right-hand side is evaluated before the reset (it may read `x`).
+      let (ns, i, t) ← buildExpr X.core.sigs X.core.nodes e
+      let s ← X.core.sigs[x]?
+      if t = s.ty ∧ ¬ t.isBit ∧ s.initScope = curScopeId X.core ∧ s.dflt = false then
+        some { X with core := { X.core with nodes := ns, sigs := X.core.sigs.set x { s with driver := i } } }
+      else none
   | .reg e => do
       -- `reg(e)`: Node_Register, ENABLE ← EnableScope::get()->getFullEnableCondition()
       let (ns, _, _) ← buildExpr X.core.sigs X.core.nodes e
